@@ -54,6 +54,20 @@ RevSeq(S)  == SetToSortSeq(S, >)
 (* below reads the augmented chart; Aug is the only place where the         *)
 (* derived fields are defined.                                              *)
 (***************************************************************************)
+\* uSCXML's post-fix order (children, in document order, before their parent; pseudo states count as
+\* children) and the ordinary transitions in that order, per state in document order
+RECURSIVE PostStatesR(_, _)
+PostStatesR(c, s) ==
+    LET kids == SetToSortSeq({x \in NS(c) : Parent(c, x) = s}, <)
+        F[i \in 0..Len(kids)] == IF i = 0 THEN <<>> ELSE F[i-1] \o PostStatesR(c, kids[i])
+    IN  F[Len(kids)] \o <<s>>
+PostTransNormalR(c) ==
+    LET ps == PostStatesR(c, Root)
+        F[i \in 0..Len(ps)] ==
+            IF i = 0 THEN <<>>
+            ELSE F[i-1] \o SetToSortSeq({t \in NT(c) : c.trans[t].src = ps[i] /\ c.trans[t].kind = "normal"}, <)
+    IN  F[Len(ps)]
+
 Aug(c) ==
     LET anc  == TLCEval([s \in NS(c) |-> AncestorsR(c, s)])
         kids == TLCEval([s \in NS(c) |-> ChildrenR(c, s)])
@@ -66,6 +80,7 @@ Aug(c) ==
          chain |-> TLCEval([s \in NS(c) |-> SelfAndAncestorsSeqR(c, s)]),
          tof   |-> TLCEval([s \in NS(c) |->
                       DocSeq({t \in NT(c) : c.trans[t].src = s /\ c.trans[t].kind = "normal"})]),
+         ptn   |-> TLCEval(PostTransNormalR(c)),
          ptr   |-> TLCEval([s \in NS(c) |->
                       IF IsPseudo(c, s) /\ \E t \in NT(c) : c.trans[t].src = s
                       THEN CHOOSE t \in NT(c) : c.trans[t].src = s ELSE 0])]
